@@ -156,6 +156,16 @@ func realConfig(op *wire.Rec) *model.SimConfig {
 	return cfg
 }
 
+// set when a run missed its deadline: its goroutine keeps spinning, so the process ends after the current case
+var realHung bool
+
+func realDeadline() time.Duration {
+	if v, err := strconv.Atoi(os.Getenv("VERIF_REAL_DEADLINE_MS")); err == nil && v > 0 {
+		return time.Duration(v) * time.Millisecond
+	}
+	return 60 * time.Second
+}
+
 func unhex(s string) string {
 	b, err := hex.DecodeString(s)
 	if err != nil {
@@ -194,7 +204,43 @@ func realRun(op *wire.Rec, withLog bool) (out *realOut) {
 	if withLog {
 		loggers = []logging.Logger{lg}
 	}
-	res, err := simulation.Run(&simulation.RunOpts{Config: realConfig(op), Eval: eval.New(context.TODO(), list.Program), Seed: int64(op.Int("seed")), Loggers: loggers})
+	// a deadline on the run: a loop that emits no event never reaches the event cap
+	var res *model.IterationResult
+	type crash struct {
+		v     any
+		stack []byte
+	}
+	done := make(chan *crash, 1)
+	go func() {
+		defer func() {
+			if r := recover(); r != nil {
+				done <- &crash{r, debug.Stack()}
+			} else {
+				done <- nil
+			}
+		}()
+		res, err = simulation.Run(&simulation.RunOpts{Config: realConfig(op), Eval: eval.New(context.TODO(), list.Program), Seed: int64(op.Int("seed")), Loggers: loggers})
+	}()
+	select {
+	case p := <-done:
+		if p != nil {
+			msg := firstLine(fmt.Sprint(p.v))
+			if os.Getenv("VERIF_TRACE") != "" {
+				fmt.Fprintf(os.Stderr, "PANIC %s\n%s\n", msg, p.stack)
+			}
+			out.lines = lg.lines
+			if strings.Contains(msg, "event cap") {
+				out.kind = "capped"
+			} else {
+				out.kind, out.msg, out.site = "panic", msg, panicSite(p.stack)
+			}
+			return out
+		}
+	case <-time.After(realDeadline()):
+		realHung = true
+		out.kind, out.msg = "hang", fmt.Sprintf("no result after %v (events so far: %d)", realDeadline(), lg.n)
+		return out
+	}
 	out.lines = lg.lines
 	if err != nil {
 		out.kind, out.msg = "error", firstLine(err.Error())
@@ -462,6 +508,10 @@ func (realComp) Exec(c *wire.Case, w *wire.Writer) {
 			w.Ob(wire.R("concdone").I("n", len(prev)))
 		default:
 			w.Ob(wire.R("badop"))
+		}
+		if realHung {
+			w.End()
+			os.Exit(0)
 		}
 	}
 }
